@@ -256,7 +256,7 @@ MUTANTS = [
     {"id": "training-floor-dropped", "file": _F, "old": "            self.training_samples.samples.size - self.min_samples,\n        )", "new": "            self.training_samples.samples.size,\n        )", "expect": "training starts at"},
     {"id": "training-logq-misaligned", "file": _F, "old": "        self.current_training_log_q = self.training_samples.log_q[\n            n_train:, :\n        ].copy()", "new": "        self.current_training_log_q = self.training_samples.log_q[\n            n_train + 1 :, :\n        ].copy()", "expect": "same tail slice"},
     {"id": "quantile-first-true-raises", "file": _F, "old": "        n = np.argmax(a >= cutoff)", "new": "        n = np.where(a >= cutoff)[0][0]", "expect": "first-true search"},
-    {"id": "new-argmax-site", "file": _F, "old": "        n_removed = self.training_samples.remove_samples()\n", "new": "        n_removed = self.training_samples.remove_samples()\n        n_chk = np.argmax(self.live_points_unit[\"logL\"] >= self.log_likelihood_threshold)\n", "expect": "first-true index"},
+    {"id": "new-argmax-site", "file": _F, "old": "        n_removed = self.training_samples.remove_samples()\n", "new": "        n_removed = self.training_samples.remove_samples()\n        n_chk = np.argmax(self.live_points_unit[\"logL\"] >= self.log_likelihood_threshold)\n", "expect": "first-true search"},
     {"id": "cdf-not-normalised", "file": _F, "old": "        cdf /= cdf[-1]\n", "new": "        cdf /= cdf.sum()\n", "expect": "CDF is normalised"},
     {"id": "validation-dropped", "file": _F, "old": "        if self.min_samples > self.nlive:\n            raise ValueError(\"`min_samples` must be less than `nlive`\")\n", "new": "", "expect": "are rejected"},
 ]
